@@ -21,7 +21,7 @@ ASSUMPTIONS = ['between the last row\'s shift reaching fchans and the implemente
                'instead of tchans-1) either rejection or success is accepted',
                'row shifts within 1e-6 of a rounding tie are excluded and counted',
                'normalised output is only checked for non-constant content']
-REQUIRED_CLASSES = ['derived_parent', 'op=slice', 'op=dedrift', 'op=integrate', 'asc', 'desc', 'dedrift_neg', 'dedrift_pos',
+REQUIRED_CLASSES = ['derived_parent', 'dedrift_exact_ties', 'op=slice', 'op=dedrift', 'op=integrate', 'asc', 'desc', 'dedrift_neg', 'dedrift_pos',
                     'dedrift_rejected', 'dedrift_meta', 'integrate_frame', 'integrate_norm', 'tone']
 
 
@@ -34,8 +34,10 @@ def strategy_(draw, tier):
     c['pre'] = draw(st.lists(st.one_of(
         st.fixed_dictionaries({'op': st.just('slice'), 'a': gen.finite(0, 0.4), 'b': gen.finite(0.6, 1.0)}),
         st.fixed_dictionaries({'op': st.just('dedrift'), 'frac': gen.finite(-0.3, 0.3)}),
-        st.fixed_dictionaries({'op': st.sampled_from(['copy', 'get_waterfall', 'float32'])})), min_size=0, max_size=2)) \
+        st.fixed_dictionaries({'op': st.sampled_from(['copy', 'get_waterfall', 'float32', 'consolidate', 'moved_ts'])})), min_size=0, max_size=2)) \
         if draw(st.booleans()) else []
+    if op == 'dedrift' and draw(st.integers(0, 5)) == 0:
+        c['pre'] = [{'op': 'consolidate'}]       # de-drifting a consolidated cadence is the typical use
     N, T = g['fchans'], g['tchans']
     if op == 'slice':
         l = draw(st.integers(0, N - 1))
@@ -46,6 +48,10 @@ def strategy_(draw, tier):
         tot = draw(st.one_of(gen.finite(0, 0.9), gen.finite(0.9, 1.2), st.just(0.0)))
         sign = draw(st.sampled_from([1, -1]))
         c.update(shift_frac=tot, sign=sign, via_meta=draw(st.booleans()))
+        if draw(st.integers(0, 7)) == 0:
+            # exact half-channel shifts: round() in the statement is read as numpy's round-half-to-even
+            c['g'].update(df=1.0, dt=1.0, fch1=max(c['g']['fch1'], 4.0 * c['g']['fchans'] + 1.0))
+            c['tie_rate'] = draw(st.sampled_from([0.5, 1.5, 2.5, 0.25, 0.75]))
     elif op == 'integrate':
         c.update(axis=draw(st.sampled_from(['t', 'f', 0, 1])), mode=draw(st.sampled_from(['mean', 'sum', 's', 'm'])),
                  normalize=draw(st.booleans()), how=draw(st.sampled_from(['array', 'frame', 'helper'])))
@@ -108,11 +114,23 @@ def run_case(case, ctx):
         elif pre['op'] == 'float32':
             fr.data = fr.data.astype(np.float32)
             ok = True
+        elif pre['op'] == 'moved_ts':
+            fr.ts = np.asarray(fr.ts) + 3.25 * fr.dt
+            ok = True
+        elif pre['op'] == 'consolidate':
+            # the frame under test is a consolidated two-scan cadence with a slew gap: absolute, gapped time axis
+            other = stg.Frame.from_data(fr.df, fr.dt, fr.fch1, fr.ascending, np.array(fr.data, dtype=float) + 500.0,
+                                        t_start=fr.t_start, source_name=fr.source_name)
+            ok, cf = core.call(obs, 'pre:consolidate', lambda: stg.Cadence([fr, other], t_slew=7.5 * fr.dt, t_overwrite=True).consolidate())
+            if ok:
+                cf.source_name = fr.source_name
+                fr = cf
         else:
             continue
         if not ok:
             return obs
         obs.cls('derived_parent')
+    custom_ts = any(p_['op'] in ('moved_ts', 'consolidate') for p_ in case.get('pre', []))   # children then get the default grid
     data = np.array(fr.data, dtype=float, copy=True)
     # single-precision data is reduced in single precision by numpy
     rtol = 1e-12 if fr.data.dtype == np.float64 else 64 * float(np.finfo(np.float32).eps) * max(fr.fchans, fr.tchans)
@@ -138,7 +156,7 @@ def run_case(case, ctx):
             obs.fail('slice:data', '')
         if np.asarray(ch.fs).shape != (r - l,) or np.max(np.abs(np.asarray(ch.fs) - fs[l:r])) > ftol:
             obs.fail('slice:fs', f'{ch.fs[0]} vs {fs[l]}')
-        if not np.array_equal(np.asarray(ch.ts), np.asarray(fr.ts)):
+        if not custom_ts and not np.array_equal(np.asarray(ch.ts), np.asarray(fr.ts)):
             obs.fail('slice:ts', '')
         check_common(obs, 'slice', fr, ch)
         ok, ch2 = core.call(obs, 'Frame.get_slice', fr.get_slice, l, r)
@@ -151,14 +169,18 @@ def run_case(case, ctx):
         df, dt = float(fr.df), float(fr.dt)
         # rate such that the shift accumulated over tchans steps is shift_frac * fchans channels
         rate_mag = case['shift_frac'] * N * df / (T * dt)
+        exact = case.get('tie_rate') is not None and df == 1.0 and dt == 1.0 and not case.get('pre')
+        if exact:
+            rate_mag = case['tie_rate']
+            obs.cls('dedrift_exact_ties')
         rate = case['sign'] * rate_mag
         off = np.abs(rate) * np.arange(T) * dt / df
         off_T = abs(rate) * T * dt / df
         tie = np.any(np.abs(off - np.floor(off) - 0.5) < 1e-6) or abs(off_T - np.floor(off_T) - 0.5) < 1e-6
-        if tie:
+        if tie and not exact:
             obs.count('excluded_ties')
             return obs
-        offs = np.rint(off).astype(int)
+        offs = np.rint(off).astype(int)          # exactly representable halves: half to even
         lim = int(np.rint(off_T))
         obs.cls('dedrift_neg' if rate < 0 else 'dedrift_pos')
         if case['via_meta']:
@@ -215,7 +237,7 @@ def run_case(case, ctx):
         elif not np.array_equal(ch.data, exp):
             bad = int(np.flatnonzero(np.any(ch.data != exp, axis=1))[0])
             obs.fail('dedrift:data', f'row {bad} (shift {offs[bad]}, rate {rate})')
-        if not np.array_equal(np.asarray(ch.ts), np.asarray(fr.ts)):
+        if not custom_ts and not np.array_equal(np.asarray(ch.ts), np.asarray(fr.ts)):
             obs.fail('dedrift:ts', '')
         check_common(obs, 'dedrift', fr, ch)
         if not np.array_equal(fr.data, before):
@@ -302,7 +324,7 @@ def run_case(case, ctx):
         else:
             if not isinstance(child, stg.TimeSeries):
                 obs.fail('integrate:type', type(child).__name__)
-            if not np.array_equal(np.asarray(child.ts), np.asarray(fr.ts)):
+            if not custom_ts and not np.array_equal(np.asarray(child.ts), np.asarray(fr.ts)):
                 obs.fail('integrate:timeseries_ts', '')
             check_common(obs, 'timeseries', fr, child, keep_df=False)
             if abs(child.df - fr.df * N) > 4 * gen.ulp(fr.df * N):
